@@ -1,8 +1,7 @@
 /- Line protocol for the track-initialisation model (C++ side: harness/trackinit.cc).
    All numbers decimal.  The driver also carries the model of the secondary StackAllocator so
    that a starved stack turns a scripted interaction into a *failed* one (C16). -/
-import CelerVerif.Model.TrackInit
-import CelerVerif.Model.Stack
+import CelerVerif.Model.TrackInitAlloc
 import CelerVerif.Model.Util
 
 namespace CelerVerif.TrackInit
@@ -82,28 +81,14 @@ def parseSpecs (ws : List String) : Option (List Spec) :=
     | some p, some l => some (p :: l)
     | _, _ => none) (some [])
 
-/-- scripted interactor + real allocator protocol: per valid slot, in slot order, a request
-    for `secs.length` secondaries; on failure the interaction is `failed`
-    (InteractionApplier: nothing changes, the track stays alive without secondaries). -/
+def Spec.toRequest (sp : Spec) : Request :=
+  ⟨if sp.kind = 'e' then .error else if sp.kind = 'u' then .unchanged
+   else if sp.kind = 'k' then .absorb else .scatter, sp.secs⟩
+
+/-- scripted interactor + real allocator protocol (Model/TrackInitAlloc.lean) -/
 def effectiveOracle (slots : List Slot) (specs : List Spec) (stk : CelerVerif.Stack.Stack) :
     List Outcome × List Nat × CelerVerif.Stack.Stack :=
-  let r := (List.zipIdx (List.zip slots specs)).foldl
-    (fun (acc : List Outcome × List Nat × CelerVerif.Stack.Stack)
-         (e : (Slot × Spec) × Nat) =>
-      let x := e.1.1; let sp := e.1.2
-      let (outs, failed, stk) := acc
-      if x.status = .inactive ∨ x.status = .errored then (outs ++ [⟨.alive, []⟩], failed, stk)
-      else if sp.kind = 'e' then (outs ++ [⟨.errored, []⟩], failed, stk)
-      else if sp.kind = 'u' then (outs ++ [⟨.alive, []⟩], failed, stk)
-      else if sp.secs.isEmpty then
-        (outs ++ [⟨if sp.kind = 'k' then .killed else .alive, []⟩], failed, stk)
-      else
-        match CelerVerif.Stack.alloc sp.secs.length stk with
-        | (none, stk') => (outs ++ [⟨.alive, []⟩], failed ++ [e.2], stk')
-        | (some _, stk') =>
-          (outs ++ [⟨if sp.kind = 'k' then .killed else .alive, sp.secs⟩], failed, stk'))
-    ([], [], stk)
-  r
+  effectiveOutcomes slots (specs.map Spec.toRequest) stk
 
 def driverStep (d : DState) (line : String) : DState × String :=
   match words line with
